@@ -385,6 +385,55 @@ func (c *Ctx) deliveryLoop(rule string) {
 				"a batch with the position's own id is held back (the staleness test is not strict): the remainder of the reply the client was reading is never delivered")
 		}
 	}
+	// the first element of GetNext's result is read only where the result is known to be non-empty (GetNext returns an empty
+	// slice when the request was cancelled)
+	{
+		nIdx := 0
+		ast.Inspect(gm.Body(), func(m ast.Node) bool {
+			ie, ok := m.(*ast.IndexExpr)
+			if !ok {
+				return true
+			}
+			id, ok := ast.Unparen(ie.X).(*ast.Ident)
+			if !ok || astx.Obj(info, id) != res {
+				return true
+			}
+			if k, ok := astx.ConstInt(info, ie.Index); !ok || k != 0 {
+				return true
+			}
+			v := g.VertexOf(ie)
+			if v < 0 || !g.Reach(nextV, nil, nil)[v] {
+				return true
+			}
+			nIdx++
+			nonEmpty := false
+			for _, fct := range append(g.FactsAt(v), leftConjuncts(g.V[v].Node, ie)...) {
+				be, ok := ast.Unparen(fct.Expr).(*ast.BinaryExpr)
+				if !ok || fct.Tag != nil {
+					continue
+				}
+				call, ok := ast.Unparen(be.X).(*ast.CallExpr)
+				if !ok || astx.Builtin(info, call) != "len" {
+					continue
+				}
+				lid, ok := ast.Unparen(call.Args[0]).(*ast.Ident)
+				if !ok || astx.Obj(info, lid) != res {
+					continue
+				}
+				k, ok := astx.ConstInt(info, be.Y)
+				if !ok {
+					continue
+				}
+				if (be.Op == token.EQL && !fct.Val && k == 0) || (be.Op == token.NEQ && fct.Val && k == 0) || (be.Op == token.GTR && fct.Val && k >= 0) || (be.Op == token.GEQ && fct.Val && k >= 1) || (be.Op == token.LSS && !fct.Val && k >= 1) || (be.Op == token.LEQ && !fct.Val && k >= 0) {
+					nonEmpty = true
+				}
+			}
+			r.Check(nonEmpty, rule, gm.Name(), "the first element of a batch is read only when the batch is non-empty", c.P.Pos(ie.Pos()), "dominated by len(<batch>) != 0",
+				"GetNext's result is indexed with [0] where it may be empty (it is empty after a cancellation): the reader goroutine panics with index out of range, which terminates the process")
+			return true
+		})
+		r.Check(nIdx >= 1, rule, gm.Name(), "first-element reads found", c.P.Pos(gm.Node().Pos()), itoa(nIdx), "no <batch>[0] read in the follow loop")
+	}
 	r.Check(n >= 1, rule, gm.Name(), "delivery sends found", c.P.Pos(gm.Node().Pos()), itoa(n), "no send of a GetNext result found in getMessages")
 }
 
